@@ -110,6 +110,20 @@ def chunks_of(s, parts):
 
 
 ENDINGS = ('F', 'R268', '')
+# how a stream can fail: reset, a stream failure of the transport's own kind (StreamErrorIncoming::Unknown), the connection
+# closed by the peer / failing in an unknown way (Undefined) / internally / by timeout
+FAILURES = ('K', 'XU', 'I', 'T', 'X256')
+TERMINAL = 'FRXTIK'
+
+
+def aborted_name(act):
+    if act[0] == 'R':
+        return 'aborted:term:' + act[1:]
+    if act == 'XU':
+        return 'aborted:undefined'
+    if act[0] == 'X':
+        return 'aborted:app:' + act[1:]
+    return {'T': 'aborted:timeout', 'I': 'aborted:internal', 'K': 'aborted:unknown'}[act[0]]
 
 
 def batch(chunks, ending, npolls):
@@ -392,6 +406,8 @@ class P(Property):
                 comps = rng.sample(comps, 8)       # thorough only: 8 of the 32 chunkings, seeded
             elif n == 7:
                 comps = rng.sample(comps, 3)       # 3 of the 64, each with one seeded ending
+            if n <= 3:
+                endings = ENDINGS + FAILURES
             for parts in comps:
                 ch = chunks_of(s, parts)
                 if n == 7:
@@ -408,7 +424,7 @@ class P(Property):
             s = rand_stream(rng)
             out.append('fd ' + (s[:rng.randint(0, min(len(s), 40))].hex() or '-'))
             ch = rand_chunking(rng, s)
-            e = rng.choice(['F', 'F', 'R%d' % rng.choice([0, 256, 268, 2 ** 40]), 'X%d' % rng.choice([256, 258]), 'T', ''])
+            e = rng.choice(['F', 'F', 'F', 'R%d' % rng.choice([0, 256, 268, 2 ** 40]), 'X%d' % rng.choice([256, 258]), 'T', 'I', 'K', 'XU', '', ''])
             out.append(random_interleaving(rng, ch, e, misuse=rng.random() < 0.1))
             out.append(batch(ch, e, 4 * len(ch) + 12))
         return out
@@ -454,17 +470,19 @@ class P(Property):
                     owed -= len(x[2:]) // 2
             if owed <= 0:
                 return False
-            out = ' '.join(['ok'] + res[:i])
+            toks, tail, pend, code = parse_obs(' '.join(['ok'] + res[:i]))
+            stoks, stail, scode = parse_spec(spec)
+            return tail is None and toks == stoks[:len(toks)]
         toks, tail, pend, code = parse_obs(out)
         stoks, stail, scode = parse_spec(spec)
-        arrivals = [a for a in acts if a[0] in 'cFRXT']
+        arrivals = [a for a in acts if a[0] in 'c' + TERMINAL]
         ending, ending_act = '', ''
         for a in arrivals:
-            if a[0] in 'FRXT':
+            if a[0] in TERMINAL:
                 ending, ending_act = a[0], a
                 break
         last_call = max([i for i, a in enumerate(acts) if a in ('p', 'n', 'd')], default=-1)
-        complete = last_call >= 0 and not any(a[0] in 'cFRXT' for a in acts[last_call + 1:])
+        complete = last_call >= 0 and not any(a[0] in 'c' + TERMINAL for a in acts[last_call + 1:])
         if toks != stoks[:len(toks)]:
             return False
         if tail is None:
@@ -476,10 +494,10 @@ class P(Property):
             return code is None or scode is None or code == scode
         if tail == 'frameerror' and stail.startswith('frameerror'):
             return all(t.startswith('b') for t in stoks[len(toks):])
-        if ending_act and ending_act[0] in 'RXT' and tail.startswith('aborted:'):
-            # a reset / connection loss may overtake frames that were already buffered: any prefix, then the abort
-            want = {'R': 'aborted:term:', 'X': 'aborted:app:', 'T': 'aborted:timeout'}[ending_act[0]] + ending_act[1:]
-            return tail == want
+        if ending_act and ending_act[0] in 'RXTIK' and tail.startswith('aborted:'):
+            # a reset / stream failure / connection loss may overtake frames that were already buffered: any prefix, then
+            # exactly that failure (never a frame error, never something else)
+            return tail == aborted_name(ending_act)
         return False
 
     def nontrivial_key(self, case, impl_out):
